@@ -56,6 +56,13 @@ def configure_logging(ctx: Ctx) -> None:
     debug = ctx.shard_count == 1 or ctx.shard_index % 2 == 1
     logger.setLevel(logging.DEBUG if debug else logging.WARNING)
     ctx.obs("log-level:" + ("DEBUG" if debug else "WARNING"))
+    if debug:
+        # applications and test suites run with `-W error`: a warning ISSUED BY the library's own modules is then an
+        # exception inside the library call (third-party import-time warnings are not touched)
+        import warnings
+
+        warnings.filterwarnings("error", module=r"aiomysensors(\..*)?")
+        ctx.obs("warnings-from-the-library-are-errors")
 
 
 def run_shard(pid: str, tier: str, seed: int, shard: tuple[int, int], out: str) -> int:
